@@ -147,7 +147,8 @@ fn pre_image(case: &StepCase) -> PreImage {
         }
     }
     for (i, b) in case.code.iter().enumerate() {
-        map.insert(case.pc.wrapping_add(i as u32), *b);
+        // bit 0 of PC is ignored by the fetch
+        map.insert((case.pc & !1).wrapping_add(i as u32), *b);
     }
     map.insert(ABWCR, case.bus.abwcr);
     map.insert(ASTCR, case.bus.astcr);
@@ -220,7 +221,9 @@ fn compare(case: &StepCase, pre: &PreImage, r: &RefRun, obs: &Observed, d_emu: &
                 if (obs.ccr ^ r.ccr) & !r.step.dont_care_ccr != 0 {
                     return Some(format!("CCR: expected {:02x} observed {:02x} (initial {:02x})", r.ccr, obs.ccr, case.ccr));
                 }
-                if obs.pc != r.pc {
+                // after an instruction that started at an odd PC, bit 0 of PC is not constrained
+                let pcmask = if case.pc & 1 != 0 { !1u32 } else { !0u32 };
+                if (obs.pc ^ r.pc) & pcmask != 0 {
                     return Some(format!("PC: expected {:06x} observed {:06x}", r.pc, obs.pc));
                 }
                 // memory: expected diff set vs observed diff set
@@ -274,6 +277,8 @@ fn compare(case: &StepCase, pre: &PreImage, r: &RefRun, obs: &Observed, d_emu: &
             }
             None
         }
+        // an implementation may refuse to execute at an odd PC
+        (Outcome::Ok, EmuResult::Err(_)) if case.pc & 1 != 0 => None,
         (Outcome::Ok, other) => {
             if asp.state || asp.charge {
                 Some(format!("expected successful execution, observed {:?}", other))
@@ -310,8 +315,9 @@ pub fn judge(emu: &mut Emu, case: &StepCase, asp: &Aspects, open_quirks: &[Quirk
     let pre = pre_image(case);
     // --- set up the emulator
     for (&a, &v) in pre.map.iter() {
-        raw_set(&mut emu.cpu.bus, a, v);
+        emu.set_byte(a, v);
     }
+    emu.set_bus_cfg(&case.bus);
     emu.cpu.er = case.er;
     emu.set_ccr(case.ccr);
     emu.set_pc(case.pc);
